@@ -402,11 +402,13 @@ func (p *Prog) FrameObligations(prop string) []*Obligation {
 	case "C08":
 		return p.c08Obligations()
 	case "C13":
-		return p.c13Obligations()
+		return append(p.c13Obligations(), p.escRewriteObligations([]string{"C13"})...)
 	case "C02":
 		return p.ownObligations(map[string]bool{"generator": true, "path": true}, "C02")
 	case "C01":
-		return p.ownObligations(map[string]bool{"generator": true, "profile": true}, "C01")
+		return append(p.ownObligations(map[string]bool{"generator": true, "profile": true}, "C01"), p.doorObligations([]string{"C01"})...)
+	case "C04":
+		return p.doorObligations([]string{"C04"})
 	case "C07":
 		return append(p.c07Obligations(), p.hygBindObligations()...)
 	case "C10", "C09":
